@@ -172,6 +172,11 @@ pub(crate) mod scopeshape {
             SelectorCtx
         }
     }
+    impl From<u8> for SelectorCtx {
+        fn from(_nested: u8) -> Self {
+            SelectorCtx
+        }
+    }
 
     #[derive(Clone, Copy, PartialEq, Debug)]
     pub enum Ev {
@@ -266,7 +271,7 @@ pub(crate) mod scopeshape {
         pub fn sub(parent: ScopeRef) -> ScopeRef {
             Self::fresh(&parent, false)
         }
-        pub fn sub_selectors<T>(parent: ScopeRef, _selectors: T) -> ScopeRef {
+        pub fn sub_selectors(parent: ScopeRef, _selectors: SelectorCtx) -> ScopeRef {
             Self::fresh(&parent, true)
         }
         pub fn get_format(&self) -> Fmt {
@@ -357,6 +362,37 @@ pub(crate) mod scopeshape {
             Ok(Items2(self.0))
         }
     }
+    /// Stand-ins for the style-rule arm: selector expressions evaluate to a
+    /// number, nesting them in the scope's selector context gives another,
+    /// `start_rule` opens a block in the destination.
+    pub struct SelExpr(pub u8);
+    impl SelExpr {
+        pub fn eval(&self, _scope: ScopeRef) -> Result<u8, ()> {
+            Ok(self.0)
+        }
+    }
+    pub struct SelCtxOfScope;
+    impl SelCtxOfScope {
+        pub fn nest(&self, selectors: u8) -> u8 {
+            selectors
+        }
+    }
+    pub struct Started(Dest);
+    impl Started {
+        pub fn no_pos(self) -> Result<Dest, ()> {
+            Ok(self.0)
+        }
+    }
+    impl Dest {
+        pub fn start_rule(&mut self, _selectors: u8) -> Started {
+            Started(Dest(self.0 + 1))
+        }
+    }
+    impl ScopeRef {
+        pub fn get_selectors(&self) -> SelCtxOfScope {
+            SelCtxOfScope
+        }
+    }
     fn check_body(_body: &u8, _context: BodyContext) -> Result<(), ()> {
         Ok(())
     }
@@ -385,6 +421,11 @@ pub(crate) mod scopeshape {
 //@  header: pub fn snippet_forward_module(with: &[(u8, Val, bool)], sourcefile: &Src, scope: ScopeRef, file_context: ()) -> Result<ScopeRef, Error>
 //@  head: let mut dest0 = Dest(5); let f =
 //@  tail: ; f(&mut dest0)
+//@end
+
+//@range file=rsass/src/output/transform.rs fn=handle_item after="Item::Rule(selectors, body) => {" until="\n        }"
+//@  header: pub fn snippet_rule_arm(selectors: &SelExpr, body: &u8, dest: &mut Dest, scope: ScopeRef, file_context: ()) -> Result<(), ()>
+//@  tail: Ok(())
 //@end
 
 //@range file=rsass/src/output/transform.rs fn=handle_item after="Item::For(name, range, body) => {" until="\n        }"
@@ -500,6 +541,23 @@ fn c16_atrule_body_runs_in_a_new_sub_scope() {
 #[kani::unwind(14)]
 fn c16_keyframes_body_runs_in_a_new_sub_scope() {
     atrule_case("keyframes");
+}
+/// C16: the body of a style rule runs (once) in a new scope opened below the
+/// enclosing one, written to the rule's block.
+#[kani::proof]
+#[kani::unwind(14)]
+fn c16_rule_body_runs_in_a_new_sub_scope() {
+    let outer = MockScope::outer();
+    let mut dest = scopeshape::Dest(5);
+    assert!(scopeshape::snippet_rule_arm(&scopeshape::SelExpr(3), &0, &mut dest, outer.clone(), ()).is_ok());
+    match nth_body(outer.log, 0) {
+        Some((scope, dest, _)) => {
+            assert!(opened_below_outer(outer.log, scope), "style rule: the body runs in a new scope opened below the enclosing scope");
+            assert!(dest == 6, "style rule: the body is written inside the rule's block");
+        }
+        None => assert!(false, "style rule: the body runs"),
+    }
+    assert!(nth_body(outer.log, 1).is_none(), "style rule: the body runs once");
 }
 /// C16: the `@for` variable is local to the loop: for each value the
 /// variable is defined in a scope opened below the enclosing one (never in
